@@ -22,6 +22,7 @@ func c09(c *Ctx) {
 	a := c.alph()
 	p, R := a.p, c.R
 	R.Trust("go/types + go/ssa", "Go channel semantics (unbuffered errC has one reader)", "supervisor restarts a watcher whose Run returned")
+	loopVarRule(c, p, "C09.loopvar", pkgAlph)
 	R.Assumption("liveness (eventually observed, exactly once) is not decided; only the structural necessary conditions listed in the explanation")
 
 	// ---- C09.page-exit -------------------------------------------------------------------------
